@@ -8,10 +8,27 @@ import (
 	"github.com/thomasjungblut/go-sstables/vrt"
 )
 
+// vDistance is a comparator that keeps the documented contract (negative, zero, positive) without restricting
+// itself to -1, 0, 1: the classic a - b.
+type vDistance struct{}
+
+func (vDistance) Compare(a, b uint8) int { return int(a) - int(b) }
+
+// VComparator: the library's ordered comparator or the distance comparator (forked).
+func VComparator() Comparator[uint8] { return vComparator() }
+
+func vComparator() Comparator[uint8] {
+	if vrt.Choose("cmp", 2) == 1 {
+		vrt.Tag("distance-comparator")
+		return vDistance{}
+	}
+	return OrderedComparator[uint8]{}
+}
+
 // vBuild inserts n distinct symbolic keys in symbolic order; value = insertion index.
 func vBuild(nMax int) (MapI[uint8, uint8], []uint8) {
 	n := vrt.Range("n", 0, nMax)
-	m := NewSkipListMap[uint8, uint8](OrderedComparator[uint8]{})
+	m := NewSkipListMap[uint8, uint8](vComparator())
 	keys := make([]uint8, n)
 	for i := 0; i < n; i++ {
 		keys[i] = vrt.Byte(vrt.K("k", i))
